@@ -120,6 +120,9 @@ def run(ctx):
                   how=G.show(rt)[:160], why=G.show(rt)[:300])
     # ---- H5
     c03.check_next(ctx, F, "multiboot2_header::tags::HeaderTagHeader", 4, "HeaderTagHeader", rule_prefix="H5.T")
+    # the walk is next()'s: no other Iterator method of TagIter is overridden (positional access through `nth` / `skip` included)
+    from . import iters as IT_
+    IT_.check_overrides(ctx, F, "H5.T5", "TagIter")
     ctx.import_prop("C15")
     # requests() of the information-request tag and the header's own payload: their extents are C05's premises for these two kinds
     ctx.import_prop("C05", only=c05.only_header_kinds, label="header kinds")
